@@ -100,6 +100,7 @@ type scenario struct {
 	MaxSteps  int
 	MaxRound  uint64
 	Crash     map[int]time.Duration // honest id -> time after which it stops (crash-silent), pre-GST only
+	Isolate   bool // the network (adversarial scheduler) holds back every honest message addressed to the relabelling victim for a long time
 	Partial   bool // every message travels as a partial message (announced value key), is partially validated on arrival and completed with its chain (production path of pmsg)
 }
 
@@ -294,6 +295,9 @@ func (w *world) broadcast(from int, m *gpbft.GMessage, byz bool) {
 		at, ok := w.deliverAt()
 		if !ok {
 			continue
+		}
+		if w.sc.Isolate && !byz && id == w.victim() && from != id {
+			at = at.Add(40 * time.Second) // delayed, not lost
 		}
 		w.seq++
 		heap.Push(&w.q, &qev{at: at, seq: w.seq, dest: id, msg: m, byz: byz})
@@ -782,44 +786,74 @@ func (w *world) byzStep() {
 // relabelStep (partial mode): the adversary re-announces a vote it has observed (any sender's, unchanged bytes and signature) under
 // the key of another chain, to one fixed victim, right after the victim has partially validated the genuine partial message whose
 // chain "has not been discovered yet". Only observed signatures are used. A correct validator refuses the re-announced message.
+func (w *world) victim() int { return w.honest[int(w.sc.MaxSteps+len(w.sc.Inputs))%len(w.honest)] }
+
 func (w *world) relabelStep() bool {
-	victim := w.honest[int(w.sc.MaxSteps+len(w.sc.Inputs))%len(w.honest)]
+	victim := w.victim()
 	h := w.hosts[victim]
 	if h.done || h.crashed {
 		return false
 	}
 	inst := w.parts[victim].Progress().ID
-	var cands []*gpbft.GMessage
-	for k := len(w.votes) - 1; k >= 0 && len(cands) < 12; k-- {
-		m := w.votes[k]
-		if m.Vote.Instance == inst && !m.Vote.Value.IsZero() && (m.Vote.Phase == gpbft.DECIDE_PHASE || m.Vote.Phase == gpbft.COMMIT_PHASE || m.Vote.Phase == gpbft.PREPARE_PHASE) && int(m.Sender) != victim && !w.relabelled[m] {
-			cands = append(cands, m)
-		}
-	}
-	if len(cands) == 0 {
-		return false
-	}
-	m := cands[w.rng.Intn(len(cands))]
-	// the target chain is fixed per run: the victim's own input (or its base if the vote is for that input already)
 	in := h.inputs[inst]
 	if in == nil {
 		return false
 	}
-	y := in
-	if y.Eq(m.Vote.Value) {
-		y = in.BaseChain()
-		if y.Eq(m.Vote.Value) {
-			return false
-		}
-	}
 	if w.relabelled == nil {
 		w.relabelled = map[*gpbft.GMessage]bool{}
 	}
-	w.relabelled[m] = true
-	w.seq++
-	heap.Push(&w.q, &qev{at: w.now.Add(time.Millisecond), seq: w.seq, dest: victim, msg: m, byz: true, bad: true, prime: true})
-	w.seq++
-	heap.Push(&w.q, &qev{at: w.now.Add(time.Millisecond), seq: w.seq, dest: victim, msg: m, byz: true, bad: true, relabel: y})
+	// every observed DECIDE is re-announced at once (it reaches the victim before the genuine message does); otherwise one earlier vote
+	var decides, others []*gpbft.GMessage
+	for k := len(w.votes) - 1; k >= 0 && len(others) < 12; k-- {
+		m := w.votes[k]
+		if m.Vote.Instance != inst || m.Vote.Value.IsZero() || int(m.Sender) == victim || w.relabelled[m] {
+			continue
+		}
+		switch m.Vote.Phase {
+		case gpbft.DECIDE_PHASE:
+			decides = append(decides, m)
+		case gpbft.COMMIT_PHASE, gpbft.PREPARE_PHASE:
+			others = append(others, m)
+		}
+	}
+	pick := decides
+	if len(pick) == 0 && len(others) > 0 {
+		pick = []*gpbft.GMessage{others[w.rng.Intn(len(others))]}
+	}
+	if len(pick) == 0 {
+		return false
+	}
+	for _, m := range pick {
+		// the target chain is fixed per run: the victim's own input (its base if the vote is for that input already)
+		y := in
+		if y.Eq(m.Vote.Value) {
+			y = in.BaseChain()
+			if y.Eq(m.Vote.Value) {
+				continue
+			}
+		}
+		w.relabelled[m] = true
+		w.seq++
+		heap.Push(&w.q, &qev{at: w.now.Add(time.Millisecond), seq: w.seq, dest: victim, msg: m, byz: true, bad: true, prime: true})
+		w.seq++
+		heap.Push(&w.q, &qev{at: w.now.Add(time.Millisecond), seq: w.seq, dest: victim, msg: m, byz: true, bad: true, relabel: y})
+		if m.Vote.Phase == gpbft.DECIDE_PHASE {
+			// the faulty member helps everybody else to decide the genuine value (a valid DECIDE of its own, if it can justify one)
+			if bm := w.byzMessage(w.sc.Byz[0], inst, gpbft.DECIDE_PHASE, 0, m.Vote.Value, -1); bm != nil {
+				for _, id := range w.honest {
+					if id != victim {
+						w.seq++
+						heap.Push(&w.q, &qev{at: w.now.Add(time.Millisecond), seq: w.seq, dest: id, msg: bm, byz: true})
+					}
+				}
+				// ... and re-announces its own DECIDE to the victim as well
+				w.seq++
+				heap.Push(&w.q, &qev{at: w.now.Add(time.Millisecond), seq: w.seq, dest: victim, msg: bm, byz: true, bad: true, prime: true})
+				w.seq++
+				heap.Push(&w.q, &qev{at: w.now.Add(time.Millisecond), seq: w.seq, dest: victim, msg: bm, byz: true, bad: true, relabel: y})
+			}
+		}
+	}
 	return true
 }
 
@@ -834,7 +868,7 @@ func (w *world) start() {
 	_ = w.observer.StartInstanceAt(0, w.now.Add(1000000*time.Hour))
 	w.log = append(w.log, w.config())
 	w.log = append(w.log, map[string]any{"ev": "Reset", "name": w.sc.Name, "gst": w.sc.GST.Milliseconds(), "inputs0": w.sc.Inputs,
-		"maxdelay": w.sc.MaxDelay.Milliseconds(), "drop": w.sc.DropPct, "adversary": w.sc.Adversary})
+		"maxdelay": w.sc.MaxDelay.Milliseconds(), "drop": w.sc.DropPct, "adversary": w.sc.Adversary, "partial": w.sc.Partial, "isolate": w.sc.Isolate})
 	for _, id := range w.honest {
 		when := w.now
 		if w.sc.Stagger > 0 {
